@@ -16,6 +16,7 @@ import (
 
 	"github.com/go-git/go-billy/v6/osfs"
 	"github.com/go-git/go-git/v6/backend"
+	"github.com/go-git/go-git/v6/plumbing"
 	"github.com/go-git/go-git/v6/plumbing/cache"
 	"github.com/go-git/go-git/v6/plumbing/transport"
 	"github.com/go-git/go-git/v6/plumbing/transport/file"
@@ -49,9 +50,30 @@ type pushResult struct {
 	Timeout bool   `json:"timeout"`
 }
 
+type seqItem struct {
+	Idx       int               `json:"idx"`
+	Init      map[string]string `json:"init"`
+	Stateless bool              `json:"stateless"`
+	Req       []byte            `json:"req"`
+	Dir       string            `json:"dir"`
+	IDs       []string          `json:"ids"` // ids whose presence in the memory storage is reported back
+}
+
+type seqResult struct {
+	MemOut, FsOut     []byte
+	MemErr, FsErr     string
+	MemPanic, FsPanic string
+	MemLog, FsLog     []refOp
+	MemFinal          map[string]string
+	MemExists         map[string]bool
+}
+
 type job struct {
-	Rounds  []round        `json:"rounds"`
-	Results [][]pushResult `json:"results"`
+	Template string         `json:"template"`
+	Seq      []seqItem      `json:"seq"`
+	SeqRes   []seqResult    `json:"seq_res"`
+	Rounds   []round        `json:"rounds"`
+	Results  [][]pushResult `json:"results"`
 }
 
 const sharedRef = "refs/heads/a"
@@ -69,6 +91,17 @@ func childMain(path string) {
 		fmt.Println("child: parse job:", err)
 		os.Exit(3)
 	}
+	if len(j.Seq) > 0 {
+		objs, err := loadObjs(j.Template)
+		if err != nil {
+			fmt.Println("child: template:", err)
+			os.Exit(3)
+		}
+		j.SeqRes = make([]seqResult, len(j.Seq))
+		for i := range j.Seq {
+			j.SeqRes[i] = runSeq(objs, &j.Seq[i])
+		}
+	}
 	j.Results = make([][]pushResult, len(j.Rounds))
 	for i := range j.Rounds {
 		j.Results[i] = runRound(&j.Rounds[i])
@@ -78,6 +111,30 @@ func childMain(path string) {
 		fmt.Println("child: write:", err)
 		os.Exit(3)
 	}
+}
+
+func runSeq(objs []raw, it *seqItem) (res seqResult) {
+	mst, err := newMem(objs, it.Init)
+	if err != nil {
+		res.MemErr = "harness: " + err.Error()
+		return res
+	}
+	res.MemOut, res.MemErr, res.MemPanic = runGoGit(memRec{mst, recLog{&res.MemLog}}, it.Stateless, it.Req)
+	res.MemFinal = memRefs(mst)
+	res.MemExists = map[string]bool{}
+	ids := append([]string{}, it.IDs...)
+	for _, v := range res.MemFinal {
+		ids = append(ids, v)
+	}
+	for _, id := range ids {
+		if len(id) == 40 {
+			res.MemExists[id] = mst.HasEncodedObject(plumbing.NewHash(id)) == nil
+		}
+	}
+	fst := filesystem.NewStorage(osfs.New(it.Dir), cache.NewObjectLRUDefault())
+	res.FsOut, res.FsErr, res.FsPanic = runGoGit(fsRec{fst, recLog{&res.FsLog}}, it.Stateless, it.Req)
+	fst.Close()
+	return res
 }
 
 func runRound(r *round) []pushResult {
@@ -164,7 +221,7 @@ func onePush(ctx context.Context, r *round, req []byte) ([]byte, string) {
 // ---- parent: generation, observation, judgement ----
 
 func runConcurrent(c *vf.Ctx, e *env) {
-	n := c.N(45, 700)
+	n := c.N(36, 600)
 	per := 150
 	for start := 0; start < n; start += per {
 		end := min(start+per, n)
@@ -180,7 +237,7 @@ func runConcurrentBatch(c *vf.Ctx, e *env, from, to int) {
 		r := c.Rand("conc", i)
 		rd := round{Idx: i, Init: map[string]string{}}
 		rd.Kind = []string{"update", "update", "create", "delete-vs-update", "mixed"}[r.Intn(5)]
-		rd.Entry = []string{"direct", "backend", "file"}[i%3]
+		rd.Entry = []string{"direct", "backend", "file"}[(i+i/3)%3]
 		rd.Root = filepath.Join(c.Scratch, fmt.Sprintf("conc-%d", i))
 		k := 2 + r.Intn(5)
 		base := gen.Pick(r, e.pool)
@@ -220,11 +277,43 @@ func runConcurrentBatch(c *vf.Ctx, e *env, from, to int) {
 		}
 		j.Rounds = append(j.Rounds, rd)
 	}
-	jobPath := filepath.Join(c.Scratch, fmt.Sprintf("job-%d.json", from))
-	b, _ := json.Marshal(&j)
+	const cw = 3
+	parts := make([]job, cw)
+	for i, rd := range j.Rounds {
+		parts[i%cw].Rounds = append(parts[i%cw].Rounds, rd)
+	}
+	outs := make([]*job, cw)
+	vf.Parallel(cw, cw, func(w int) {
+		if len(parts[w].Rounds) > 0 {
+			outs[w] = spawnChild(c, &parts[w], fmt.Sprintf("conc-%d-%d", from, w))
+		}
+	})
+	jr := &job{}
+	for w := range outs {
+		if outs[w] == nil {
+			if len(parts[w].Rounds) > 0 {
+				return
+			}
+			continue
+		}
+		jr.Rounds = append(jr.Rounds, outs[w].Rounds...)
+		jr.Results = append(jr.Results, outs[w].Results...)
+	}
+	vf.Parallel(len(jr.Rounds), 8, func(i int) {
+		judgeRound(c, e, &jr.Rounds[i], jr.Results[i])
+		os.RemoveAll(jr.Rounds[i].Root)
+	})
+}
+
+// spawnChild runs the job in a child process of this binary (race detector
+// on, reports to a log file) and returns the job with results, or nil after
+// recording why not.
+func spawnChild(c *vf.Ctx, j *job, label string) *job {
+	jobPath := filepath.Join(c.Scratch, "job-"+label+".json")
+	b, _ := json.Marshal(j)
 	c.Must(os.WriteFile(jobPath, b, 0o644), "write job")
-	raceBase := filepath.Join(c.Scratch, fmt.Sprintf("race-%d", from))
-	ctx, cancel := context.WithTimeout(context.Background(), 20*time.Minute)
+	raceBase := filepath.Join(c.Scratch, "race-"+label)
+	ctx, cancel := context.WithTimeout(context.Background(), 25*time.Minute)
 	defer cancel()
 	cmd := exec.CommandContext(ctx, os.Args[0])
 	cmd.Env = append(os.Environ(), "C39_CHILD="+jobPath, "GORACE=halt_on_error=0 exitcode=0 log_path="+raceBase)
@@ -232,8 +321,8 @@ func runConcurrentBatch(c *vf.Ctx, e *env, from, to int) {
 	cmd.Stdout, cmd.Stderr = &cout, &cout
 	err := cmd.Run()
 	if ctx.Err() != nil {
-		c.Inconclusive("concurrent child did not finish within 20 min")
-		return
+		c.Inconclusive("child %s did not finish within 25 min", label)
+		return nil
 	}
 	if err != nil {
 		txt := cout.String()
@@ -242,13 +331,12 @@ func runConcurrentBatch(c *vf.Ctx, e *env, from, to int) {
 			if k := strings.IndexByte(line, '\n'); k > 0 {
 				line = line[:k]
 			}
-			c.Fail("concurrent:fatal:"+vf.ShapeHash(line), "go-git server code died under concurrent pushes: "+line+"\n"+tail(txt, 3000), map[string]any{"from": from, "to": to})
-			return
+			c.Fail("fatal:"+vf.ShapeHash(line), "go-git server code died ("+label+"): "+line+"\n"+tail(txt, 3000), map[string]any{"job": label})
+			return nil
 		}
-		c.Broken("concurrent child failed: %v\n%s", err, tail(txt, 2000))
-		return
+		c.Broken("child %s failed: %v\n%s", label, err, tail(txt, 2000))
+		return nil
 	}
-	// race reports
 	logs, _ := filepath.Glob(raceBase + ".*")
 	for _, lf := range logs {
 		lb, _ := os.ReadFile(lf)
@@ -257,18 +345,58 @@ func runConcurrentBatch(c *vf.Ctx, e *env, from, to int) {
 				continue
 			}
 			c.Count("race_reports", 1)
-			fn := firstGoGitFrame(rep)
-			c.Fail("race:"+fn, "data race between concurrent pushes to one repository directory (separate Storage per connection)\n"+tail(rep, 3500), map[string]any{"from": from, "to": to})
+			c.Fail("race:"+firstGoGitFrame(rep), "data race in the go-git server code ("+label+"; one Storage per connection)\n"+tail(rep, 3500), map[string]any{"job": label})
 		}
 	}
 	ob, err := os.ReadFile(jobPath + ".out")
 	c.Must(err, "child results")
+	os.Remove(jobPath)
+	os.Remove(jobPath + ".out")
 	var jr job
 	c.Must(json.Unmarshal(ob, &jr), "parse child results")
-	vf.Parallel(len(jr.Rounds), 8, func(i int) {
-		judgeRound(c, e, &jr.Rounds[i], jr.Results[i])
-		os.RemoveAll(jr.Rounds[i].Root)
+	return &jr
+}
+
+// runSeqChildren distributes the pending cases over worker children.
+func (e *env) runSeqChildren(ps []*pending, start int) bool {
+	const workers = 6
+	jobs := make([]job, workers)
+	owner := make([][]int, workers)
+	for i, p := range ps {
+		if p.dir == "" {
+			continue
+		}
+		w := i % workers
+		jobs[w].Template = e.template
+		jobs[w].Seq = append(jobs[w].Seq, seqItem{Idx: p.cs.Idx, Init: p.cs.Init, Stateless: p.cs.Stateless, Req: p.req, Dir: p.dir, IDs: idsOfInterest(p.cs, nil)})
+		owner[w] = append(owner[w], i)
+	}
+	ok := true
+	var mu sync.Mutex
+	vf.Parallel(workers, workers, func(w int) {
+		if len(jobs[w].Seq) == 0 {
+			return
+		}
+		jr := spawnChild(e.c, &jobs[w], fmt.Sprintf("seq-%d-%d", start, w))
+		if jr == nil || len(jr.SeqRes) != len(owner[w]) {
+			mu.Lock()
+			ok = false
+			mu.Unlock()
+			return
+		}
+		for k, i := range owner[w] {
+			p, r := ps[i], jr.SeqRes[k]
+			om := &Outcome{Server: "gogit-mem", Err: r.MemErr, Panic: r.MemPanic, Final: r.MemFinal, Exists: r.MemExists, Hint: maskFromLog(p.cs.Cmds, r.MemLog), Log: r.MemLog}
+			if om.Final == nil {
+				om.Final = map[string]string{}
+			}
+			om.Report, _ = parseOutput(r.MemOut, !p.cs.Stateless, p.cs.sideband())
+			of := &Outcome{Server: "gogit-fs", Err: r.FsErr, Panic: r.FsPanic, Hint: maskFromLog(p.cs.Cmds, r.FsLog), Log: r.FsLog}
+			of.Report, _ = parseOutput(r.FsOut, !p.cs.Stateless, p.cs.sideband())
+			p.outs = []*Outcome{om, of}
+		}
 	})
+	return ok
 }
 
 func tail(s string, n int) string {
@@ -310,7 +438,7 @@ func judgeRound(c *vf.Ctx, e *env, r *round, res []pushResult) {
 	for _, v := range final {
 		ids = append(ids, v)
 	}
-	exists, err := e.existsGit(dir, ids)
+	exists, err := existsOnDisk(dir, ids)
 	if err != nil {
 		c.Broken("concurrent observe: %v", err)
 		return
